@@ -60,6 +60,47 @@ CONFIG = {
         'level_text': 'Theorem (an iff, for all inputs, states, ledgers and dependency plans, both variants): a deposit succeeds exactly when the documented preconditions hold (positive amount within the limit stored under the lower-cased token, burn token = minting denom up to case folding and a valid denom, non-zero 32-byte recipient, non-zero 32-byte messenger, both flags off, 132 <= max body size, debit and burn succeed, non-zero 32-byte caller for the with-caller variant); limit and body-size boundaries are corollaries for every limit. The Go handlers are tied to the model by differential execution of a precondition matrix x amounts around seven limits, with faithful and permissive ledgers.',
         'assumptions': ['environment: the module account address string is a valid address (env_ok, checked by computation on every run); the minting denom is ASCII'],
     },
+    'C04': {
+        'profiles': [('mint-values', 30, 600), ('flows', 25, 600), ('receive-matrix', 60, 1000)],
+        'rules': [(ANY, 'D', r' Mint '), (r'TX:.*', 'E', r'(MintAndWithdraw|MessageReceived)'), (r'TX:ReceiveMessage', 'S', r'^bal '), (r'TX:ReceiveMessage', 'R', None)],
+        'monitors': [M.mon_c04],
+        'level_text': 'Theorems: a successful module-addressed receive makes exactly one dependency call, a mint in the module\'s own name of the 256-bit big-endian amount at body[68..100], in the lower-cased linked denom, to the account named by the low 20 bytes of the mint-recipient field, and emits MintAndWithdraw and MessageReceived with those values; other receives, failed transactions and every other transaction type mint nothing; over any history total minted equals the sum of the stated amounts of the accepted messages (distinct by C02). The Go handler is tied to the model by differential execution with amounts up to 2^256-1, recipients with non-zero high bytes and mixed-case local tokens installed through genesis; mint requests, both events and ledger balances are compared, and recomputed independently on the implementation trace.',
+    },
+    'C05': {
+        'profiles': [('outbound', 40, 1000), ('flows', 25, 600), ('faults', 4, 40)],
+        'rules': [(ANY, 'D', r' (Transfer|Burn) '), (r'TX:(SendMessage|SendMessageWithCaller|DepositForBurn|DepositForBurnWithCaller|ReplaceMessage|ReplaceDepositForBurn|ReceiveMessage)$', 'E', r'MessageSent'), (r'TX:(SendMessage|SendMessageWithCaller|DepositForBurn|DepositForBurnWithCaller|ReplaceMessage|ReplaceDepositForBurn|ReceiveMessage)$', 'S', r'^bal '), (r'TX:(SendMessage|SendMessageWithCaller|DepositForBurn|DepositForBurnWithCaller|ReplaceMessage|ReplaceDepositForBurn|ReceiveMessage)$', 'R', r'^(ok|err|panic)')],
+        'monitors': [M.mon_c05],
+        'level_text': 'Theorems: a successful deposit made exactly the transfer of the stated amount from the depositor to the module and the burn of that amount from the module, emitted one message speaking as the module whose burn body states that amount and the depositor, and changed the ledger by exactly those two effects; no other transaction type transfers or burns; sends carry the submitter\'s own padded address as sender and replacements keep the original sender, which replace-message checks to be the submitter and replace-deposit (speaking as the module) checks to be the module with the submitter as depositor. Tied to the Go handlers by differential execution (dependency requests, decoded MessageSent, balances), with the equalities recomputed on the implementation trace.',
+        'assumptions': ['history-level conservation across replacements relies on honest attesters only attesting emitted messages (the harness signs fabricated originals too, which the monitor accounts for by checking each replacement against its own original)', 'math.Int values are at most 256 bits wide (wire decoding enforces it)'],
+    },
+    'C06': {
+        'profiles': [('outbound', 40, 1000), ('replace', 25, 600), ('flows', 20, 500)],
+        'rules': [(r'TX:(SendMessage|SendMessageWithCaller|DepositForBurn|DepositForBurnWithCaller|ReplaceMessage|ReplaceDepositForBurn|ReceiveMessage)$', 'E', r'(MessageSent|DepositForBurn)'), (r'TX:(SendMessage|SendMessageWithCaller|DepositForBurn|DepositForBurnWithCaller|ReplaceMessage|ReplaceDepositForBurn|ReceiveMessage)$', 'R', None)],
+        'monitors': [M.mon_c06],
+        'level_text': 'Theorems for the five producing transaction types: the emitted bytes equal the independent reference layout (Spec/Layout.v) of exactly version 0, source 4, the requested destination, the response nonce, the padded submitter (module for deposits), the requested recipient (registered messenger for deposits), the requested caller or 32 zero bytes, and the requested body (for deposits the version-0 burn message with keccak256 of the lower-cased denom, requested recipient, amount and padded depositor); the DepositForBurn event repeats those values; a replacement\'s event names the same burn token as the original deposit\'s. Tied to the Go handlers by differential execution and by an independent field-by-field decoder (own Keccak-256) on the implementation trace.',
+    },
+    'C09': {
+        'profiles': [('replace', 40, 1000), ('outbound', 20, 500)],
+        'rules': [(r'TX:(ReplaceMessage|ReplaceDepositForBurn)$', 'R', None), (r'TX:(ReplaceMessage|ReplaceDepositForBurn)$', 'E', None),
+                  (r'TX:(ReplaceMessage|ReplaceDepositForBurn)$', 'S', None), (r'TX:(ReplaceMessage|ReplaceDepositForBurn)$', 'D', None)],
+        'monitors': [M.mon_c09],
+        'level_text': 'Theorems: replace-message succeeds only when sending is not paused, the original verifies under the attesters and threshold stored now, has source domain 4 and the submitter as sender, and re-emits it with only body and caller changed; replace-deposit-for-burn additionally needs minting not paused, a 132-byte burn body whose depositor is the submitter, a non-zero new recipient and the module as original sender, and keeps burn token, amount, depositor and version; both leave store and ledger untouched and make no dependency call, accepted or not. Tied to the Go handlers by differential execution over own / foreign / fabricated / tampered / unattested / rotated-set originals.',
+    },
+    'C12': {
+        'profiles': [('pause-matrix', 6, 60), ('flows', 20, 500)],
+        'rules': [(r'TX:(SendMessage|SendMessageWithCaller|DepositForBurn|DepositForBurnWithCaller|ReplaceMessage|ReplaceDepositForBurn|ReceiveMessage)$', 'R', r'^(ok|err|panic)'), (ANY, 'S', r'^flag '), (r'TX:(Pause|Unpause).*', 'R', None), (r'TX:(Pause|Unpause).*', 'E', None),
+                  (r'Q:(BurningAndMintingPaused|SendingAndReceivingMessagesPaused)', 'QR', None)],
+        'monitors': [M.mon_c12],
+        'level_text': 'Theorems: with sending-and-receiving paused none of the eight flows succeeds; with burning-and-minting paused no deposit, deposit replacement or module-addressed receive succeeds, while sends, message replacements and other receives are provably independent of that flag (non-interference of the handler function); all 18 administrative handlers are independent of both flags; each flag changes only through its own pause/unpause by the pauser; pausing is idempotent and unpause after pause restores the store. Tied to the Go handlers by exhaustive execution of 4 flag states x 8 flows with otherwise valid inputs, before and after pause/unpause sequences by all accounts.',
+    },
+    'C14': {
+        'profiles': [('faults', 6, 80), ('flows', 20, 500)],
+        'rules': [(r'TX:(DepositForBurn|DepositForBurnWithCaller|ReceiveMessage)$', 'R', r'^(ok|err|panic)'), (r'TX:(DepositForBurn|DepositForBurnWithCaller|ReceiveMessage)$', 'D', None),
+                  (r'TX:(DepositForBurn|DepositForBurnWithCaller|ReceiveMessage)$', 'S', None), (r'TX:(DepositForBurn|DepositForBurnWithCaller|ReceiveMessage)$', 'E', None)],
+        'monitors': [M.mon_c14],
+        'level_text': 'Theorems for all states, requests and all dependency plans: a deposit succeeds only if the debit and the burn both succeeded, a message was emitted and the nonce reserved; a plan that fails the transfer or the burn makes the deposit an error; a module-addressed receive succeeds only if the mint succeeded; the validation failures detected after the burn (sending paused, oversized body, malformed caller, zero/short messenger, wrong-size recipient) are errors; a transaction that is not accepted leaves chain, ledger and events exactly as before, while the handler\'s own branch is provably dirty (vm_compute example). Tied to the Go code by enumeration of dependency plans x late-failure kinds; partial in that baseapp\'s branch-and-discard rule is re-implemented in the harness, not verified.',
+        'assumptions': ['the SDK discards the state branch and events of a message whose handler returned an error: re-implemented in the harness (CacheContext, write only on success) and as deliver in the model'],
+    },
     'C07': {
         'profiles': [('outbound', 60, 1500), ('flows', 25, 600), ('replace', 25, 600)],
         'rules': [(r'TX:(SendMessage|SendMessageWithCaller|DepositForBurn|DepositForBurnWithCaller|ReplaceMessage|ReplaceDepositForBurn)$', 'R', None),
